@@ -2,6 +2,8 @@ import SpoxModel.Lemmas.Renames
 import SpoxModel.Lemmas.Front
 import SpoxModel.Generated.RenamesIR
 import SpoxModel.Generated.Writes
+import SpoxModel.Lemmas.Memo
+import SpoxModel.Generated.GraphSetters
 /-!
 # C12 — build and inline are pure, repeatable and independent of process history
 
@@ -103,5 +105,31 @@ theorem swaps_restored : Purity.swapsRestored Generated.Writes.sites = true := b
 /-- `inline` copies the model it is given before the first statement that mutates it, and only the
     copy is reachable from the returned callback. -/
 theorem inline_copies_first : Purity.copyBeforeMutate Generated.Writes.inlineEvents = true := by decide
+
+/-! ## Memoised build results (`Graph._build_result`) -/
+
+/-- **cache_transparent.** For any sequence of reads (`_get_build_result`) and setter calls on a
+    Graph in which every setter that changes what the build depends on (requested results /
+    arguments) starts the new Graph with its own cache, every read through the cache returns what
+    recomputation would return at that moment — whatever `compute` is. -/
+theorem cache_transparent {K R : Type} (compute : K → R) (ops : List (Memo.Op K)) (g : Memo.G K R)
+    (hr : Memo.resetting ops = true) (hg : Memo.Inv compute g) :
+    Memo.reads compute g ops = Memo.spec compute g.key ops :=
+  Memo.reads_eq_spec compute ops g hr hg
+
+/-- … and that is how the setters of `Graph` in /repo are written now (table extracted on this run). -/
+theorem setters_reset : Memo.settersOk Generated.GraphSetters.setters = true := by decide
+
+/-- `_get_build_result` is `if cache is None: cache = compute; return cache`. -/
+theorem memo_guarded : Generated.GraphSetters.memoGuarded = true := by decide
+
+/-- The Builder reads nothing of a Graph but its requested results and arguments. -/
+theorem builder_reads_known :
+    Generated.GraphSetters.builderReads.all (fun r => Memo.knownBuilderReads.contains r) = true := by decide
+
+/-- A key-changing setter that shares the cache (the pinned `with_arguments`) returns stale results. -/
+theorem cache_stale_counterexample :
+    Memo.reads (fun k : Nat => k) ⟨0, none⟩ [.get, .setKey 1 false, .get] ≠
+      Memo.spec (fun k : Nat => k) 0 [.get, .setKey 1 false, .get] := by decide
 
 end C12
